@@ -12,7 +12,7 @@ BOUNDED layer : three kinds of cases, all on the real objects:
              grammars held by the object must be unchanged.
   purity   - rules / V / S / N of a grammar are snapshotted before and after every query and transformation
              of DESIGN 4-C05 part 1; results returned earlier (grammars) must also stay unchanged.
-  long     - a context of 60 (quick) / 200-300 (thorough) tokens: a warm object that was fed the context token by
+  long     - a context of 60 (quick) / 120-180 (thorough) tokens: a warm object that was fed the context token by
              token, the same object after clear_cache(), and cold fresh objects must give the same answers.
 The oracle is the property statement itself: "same query, same answer" - the reference is a fresh object, never
 the queried one.
@@ -579,7 +579,7 @@ def bounded(run):
              f"strings; a quarter follow the fixed pattern long, sibling, short, [clear], long); each answer compared with a fresh "
              f"object asked only that query; earlier answers re-read at the end; purity: every query/transformation of DESIGN 4-C05 "
              f"part 1 in a seeded order on one grammar object with rules/V/S/N snapshots before/after; {nl} long-context cases "
-             f"({'60' if tier == 'quick' else '200-300'} tokens: warm token-by-token vs cold fresh objects vs after clear_cache); "
+             f"({'60' if tier == 'quick' else '120-180'} tokens: warm token-by-token vs cold fresh objects vs after clear_cache); "
              f"non-trivial = some compared answer is non-empty/non-zero; distinct = (grammar, semiring, object). "
              f"NOT covered: the histories are sampled, not all sequences; BoolCFGLM alg='cky' (p_next raises on every input, see C01); "
              f"contexts beyond ~480 tokens (a cold chart() recursion exceeds Python's recursion limit)")
